@@ -59,7 +59,7 @@ RECURSIVE CallNext(_,_,_), CallError(_,_,_), CallComplete(_,_), Unsub(_,_), Fina
           Subscribe(_,_,_), Subscribe0(_,_,_), SubscribeInputs(_,_,_), OnNext(_,_,_,_), OnError(_,_,_,_), OnComplete(_,_,_),
           RunScript(_,_,_,_), FromIter(_,_,_), EmitWhileSub(_,_,_), StartWith(_,_,_), RepeatLoop(_,_,_),
           SubjNext(_,_,_), SubjError(_,_,_), SubjComplete(_,_), SubjSubscribe(_,_,_), Broadcast(_,_,_,_), PlainSubscribe(_,_,_),
-          HookSub(_,_,_), HookUnsub(_,_,_), ReplayItems(_,_,_), ZipDrain(_,_), ConcatNext(_,_), GroupTerminal(_,_,_,_)
+          HookSub(_,_,_), HookUnsub(_,_,_), ReplayItems(_,_,_), ZipDrain(_,_), ConcatNext(_,_), GroupTerminal(_,_,_,_), TermReact(_,_,_)
 
 \* ---------------------------------------------------------------- held locks (same-thread re-entrancy)
 Conflicts(h, l, m) == \E i \in 1..Len(h.held) : h.held[i].l = l /\ (m = "W" \/ h.held[i].m = "W")
@@ -88,6 +88,8 @@ Unsub(h, o) ==
 \* The user's next-callback (harness sink u).  Reactions are drawn from a fixed family (h.sinkcnt[u]):
 \*   unsub_at = k : on the k-th item call unsubscribe() on the sink's own Subscription (if subscribe() already returned it)
 \*   emit_at  = k : on the k-th item call next(7) on subject emit_j            (re-entrant emission)
+\*   emit_at  = -1: from inside its TERMINAL callback call next(7) and then the other terminal on the first observer an instrumented
+\*                  source (probe / cold) was handed - a user-written hot source driven re-entrantly        (C01 "nothing after the terminal")
 \*   sub_at   = k : on the k-th item subscribe sink 3 to subject emit_j        (re-entrant subscription)
 \*   sub_at   = -k: on the k-th item subscribe sink 3 to the connectable 1 again (re-entrant subscription to the observable it is called from)
 \* unsubscribe() on sink u's own Subscription from inside the library's call chain (if subscribe() already returned it)
@@ -114,6 +116,15 @@ SinkReact(h, u) ==
           IN Subscribe([h4 EXCEPT !.obs = Append(@, NewObs(SinkHd(3)))], Leaf("conn", 1), o)
      ELSE h4
 
+TermReact(h, u, k) ==
+  LET sc == h.sinkcnt[u]
+      ids == { i \in 1..Len(h.regs) : h.regs[i] # <<>> } IN
+  IF h.stuck # "" \/ sc.emit_at # 0 - 1 \/ ids = {} THEN h
+  ELSE LET i == CHOOSE x \in ids : \A y \in ids : x <= y
+           o == h.regs[i][1]
+           h1 == CallNext(h, o, 7)
+       IN IF k = "e" THEN CallComplete(h1, o) ELSE CallError(h1, o, 6)
+
 CallNext(h, o, x) ==
   IF h.stuck # "" \/ ~h.obs[o].n THEN h
   ELSE LET hd == h.obs[o].hd IN
@@ -129,7 +140,7 @@ CallError(h, o, x) ==
            h1 == [h EXCEPT !.obs[o].n = FALSE, !.obs[o].c = FALSE, !.obs[o].e = FALSE]
            hd == h.obs[o].hd IN
        IF ~had THEN h1 ELSE
-       CASE hd.k = "sink" -> Emit(h1, Ev("cb", hd.a, "e", x))
+       CASE hd.k = "sink" -> TermReact(Emit(h1, Ev("cb", hd.a, "e", x)), hd.a, "e")
          [] hd.k = "fwd" -> CallError(h1, hd.a, x)
          [] hd.k = "tosbj" -> SubjError(h1, hd.a, x)
          [] OTHER -> OnError(h1, o, hd, x)
@@ -139,7 +150,7 @@ CallComplete(h, o) ==
            h1 == [h EXCEPT !.obs[o].n = FALSE, !.obs[o].e = FALSE, !.obs[o].c = FALSE]
            hd == h.obs[o].hd IN
        IF ~had THEN h1 ELSE
-       CASE hd.k = "sink" -> Emit(h1, Ev("cb", hd.a, "c", 0))
+       CASE hd.k = "sink" -> TermReact(Emit(h1, Ev("cb", hd.a, "c", 0)), hd.a, "c")
          [] hd.k = "fwd" -> CallComplete(h1, hd.a)
          [] hd.k = "tosbj" -> SubjComplete(h1, hd.a)
          [] OTHER -> OnComplete(h1, o, hd)
